@@ -107,7 +107,7 @@ pub fn ls_check(id: &str) -> Option<LsCheck> {
             rule: "quiescent lock-step cases under a virtual clock, ample capacity, TTLs from 1ns to 1h, advances aimed at second boundaries and deadlines +-1ns; non-trivial = a lookup within 1s of the key's deadline or within 1ns of a second boundary, or a TTL<->no-TTL re-insert followed by a cleanup tick; distinct by case hash",
             nontrivial: |f| f.ttl_boundary_lookups > 0 || f.ttl_switch_then_tick > 0,
             assumptions: &["time is the virtual clock served to SystemTime::now() (monotone)"],
-            scenario: None,
+            scenario: Some(clear_reuse_scenario),
         },
         "C04" => LsCheck {
             id: "C04",
@@ -130,7 +130,7 @@ pub fn ls_check(id: &str) -> Option<LsCheck> {
             rule: "quiescent lock-step cases with max_cost 2^40 and a 64-slot buffer (never full); every key of the domain is looked up at the end; non-trivial = TTL<->no-TTL re-insert followed by a tick, or a TTL key re-used after clear(), or an update of a key that shares its expiry second with another key; distinct by case hash",
             nontrivial: |f| f.ttl_switch_then_tick > 0 || f.key_reused_after_clear > 0 || f.shared_bucket_updates > 0,
             assumptions: &["quiescent histories only (the property has no schedule quantifier)"],
-            scenario: None,
+            scenario: Some(clear_reuse_scenario),
         },
         "C05" => LsCheck {
             id: "C05",
@@ -179,6 +179,32 @@ pub fn ls_check(id: &str) -> Option<LsCheck> {
             rule: "schedule-mode lock-step cases (processor arms fire only where generated); non-trivial = a remove, update or clear() hit a key with work still buffered; distinct by case hash",
             nontrivial: |f| f.removes_inflight > 0 || f.updates_inflight > 0 || f.clears_with_pending > 0 || f.interposed_same_key > 0,
             assumptions: &["keys have distinct index hashes", "operations that returned Err void the case from that point (precondition of the property)"],
+            scenario: None,
+        },
+        "C07" => LsCheck {
+            id: "C07",
+            profile: Profile {
+                name: "admission-in-the-cache",
+                cap: Cap::Tight,
+                ttl_pct: 10,
+                buffer_items: vec![0, 1, 2, 3],
+                num_counters: vec![16, 64],
+                w: w(|w| {
+                    w.insert = 36;
+                    w.get = 30;
+                    w.policy = 10;
+                    w.remove = 3;
+                    w.clear = 1;
+                    w.umc = 2;
+                }),
+                len: (12, 80),
+                ..d
+            },
+            quick: 16_000,
+            thorough: 300_000,
+            rule: "lock-step cases with tight capacity, mixed costs and popularity shaped by lookups through the real ring buffer and the parked policy worker: what the policy decides must be carried out by the processor (room => admitted and nothing evicted; every victim leaves the store and reaches on_evict, also when the newcomer is rejected in a later round; a rejected newcomer reaches on_reject); non-trivial = an admission with eviction or an evict-then-reject decision; distinct by case hash",
+            nontrivial: |f| f.admissions_with_eviction > 0 || f.evict_then_reject > 0,
+            assumptions: &["which candidates are sampled and how ties break is left to the implementation (the rule itself is checked at policy level by the component engine)"],
             scenario: None,
         },
         "C08" => LsCheck {
@@ -442,6 +468,7 @@ pub fn failures_for(prop: &str, case: &Case, stats: Option<&Stats>, nontrivial: 
                     ("op_returned_err", f.errs > 0),
                     ("max_cost_lowered_then_admit", f.max_cost_lowered_then_admit > 0),
                     ("over_budget_then_admit", f.over_budget_then_admit > 0),
+                    ("evict_then_reject", f.evict_then_reject > 0),
                 ] {
                     if on {
                         stats.count(name);
@@ -715,6 +742,7 @@ pub fn stress_parts(id: &str) -> Vec<StressPart> {
     match id {
         "C02" => vec![p(Kind::Invariants, 640, 12000, 25), p(Kind::Validated, 200, 4000, 25)],
         "C01" | "C06" | "C08" | "C17" => vec![p(Kind::Invariants, 640, 12000, 25)],
+        "C11" => vec![p(Kind::Invariants, 640, 12000, 25)],
         "C05" => vec![p(Kind::Reclaim, 96, 2000, 50)],
         "C09" => vec![p(Kind::Validated, 320, 6000, 25)],
         "C10" => vec![p(Kind::Barrier, 640, 12000, 25), p(Kind::WaitRace, 640, 12000, 25)],
